@@ -115,9 +115,10 @@ func c19Prop(c *sim.Case) {
 		c.Violation("startup-error", "start-up secret collection failed: %v", err)
 	}
 	ctx := context.Background()
-	ref := map[string]string{}  // name -> last value applied (current namespace)
-	updates := map[string]int{} // applied updates per name
-	between := map[string]int{} // unrelated/ineligible events since the first update
+	usedValues := map[string][]string{} // per Secret name: values it has held
+	ref := map[string]string{}          // name -> last value applied (current namespace)
+	updates := map[string]int{}         // applied updates per name
+	between := map[string]int{}         // unrelated/ineligible events since the first update
 	interesting := false
 	check := func(when string, exchange bool) {
 		for i, f := range fs {
@@ -184,6 +185,10 @@ func c19Prop(c *sim.Case) {
 			if kind == "set" {
 				// secrets from a few characters to a couple of hundred (generated keys, base64 of 64-128 random bytes)
 				val = fmt.Sprintf("value-%d-%s", ctr, strings.Repeat("s", sim.Tail(c, "vlen", 3, 220)))
+				if old := usedValues[name]; len(old) > 0 && sim.Weighted(c, "value-comes-back", 2, 1) == 1 {
+					val = old[sim.Pick(c, "value-comes-back.which", len(old))] // rotated back to a value the Secret held before
+				}
+				usedValues[name] = append(usedValues[name], val)
 				data["client-secret"] = []byte(val)
 			} else if kind == "empty" {
 				data["client-secret"] = []byte{}
